@@ -320,3 +320,12 @@ func (s Forward) emit(a *Asm) {
 	}
 	failCheck(a, s.Fail)
 }
+
+// Guard makes the frame a plain value receiver when called with empty calldata: the steps
+// after it only run when calldata is non-empty.
+type Guard struct{}
+
+func (Guard) emit(a *Asm) {
+	l := a.NewLabel()
+	a.Op(vm.CALLDATASIZE).PushLabel(l).Op(vm.JUMPI, vm.STOP).Label(l)
+}
